@@ -49,10 +49,11 @@ Definition ideal_set (sl : slot) (x : R) (s : spdc) : spdc :=
   | SCrystalTemperature => put_crystal (mk_crystal_setup (c_crystal c) (c_pm_type c) (c_phi c) (c_theta c) (c_length c) x (c_counter_propagation c)) s
   | SBeamTheta b => put_beam b (beam_with_theta (norm_angle_signed x) (get_beam b s)) s
   | SBeamThetaExternal b =>
-      (* Snell-equivalent internal angle of |x|; the azimuth is re-normalised (a no-op on a normalised beam) *)
+      (* Snell-equivalent internal angle of x (the kernel receives the SIGNED external angle); the azimuth is re-normalised (a no-op on
+         a normalised beam) *)
       let bm := get_beam b s in
       put_beam b (mk_beam (b_waist bm) (b_frequency bm) (b_polarization bm)
-                    (norm_angle_signed (snell_internal bm (Rabs x) c)) (norm_angle (b_phi bm))) s
+                    (norm_angle_signed (snell_internal bm x c)) (norm_angle (b_phi bm))) s
   | SBeamPhi b => put_beam b (beam_with_phi (norm_angle x) (get_beam b s)) s
   | SBeamFrequency b => put_beam b (beam_with_frequency x (get_beam b s)) s
   | SBeamWavelength b => put_beam b (beam_with_frequency (2 * PI * c_light / x) (get_beam b s)) s
